@@ -1,5 +1,6 @@
 import KoordVerif.Model.C12
 import KoordVerif.Proofs.C12
+import KoordVerif.Proofs.C12None
 /-
 C12 — property theorems (DESIGN.md §4 C12, Appendix A.5).
 
@@ -12,10 +13,6 @@ The crash-point quantifier is the universally quantified prefix length `k` of th
 namespace KoordVerif.C12
 
 variable {α : Type}
-
-/-- every child is within its parent. -/
-def Valid (parent : Nat → Option Nat) (le : α → α → Prop) (f : Nat → α) : Prop :=
-  ∀ c p, parent c = some p → le (f c) (f p)
 
 /-- the batch is levelled along the tree: the parent of a directory never sits in the same or a later level. -/
 def Levelled (parent : Nat → Option Nat) (levels : List (List (Upd α))) : Prop :=
@@ -424,6 +421,140 @@ theorem cfsV2_rewrites_unchanged_counterexample :
     ¬ (∀ w ∈ (runBatch cfsV2Dom false [[{ node := 0, tgt := some 5000 }]]
           { files := fun _ => 5000, cache := fun _ => none, skip := [] }).2, (5000 : Int) ≠ w.2) := by
   decide
+
+/-! ### BE cpuset two-phase rewrite: applyCPUSetWithNonePolicy -/
+
+theorem subMask_refl (a : Nat) : subMask a a := Nat.or_self a
+theorem subMask_trans {a b c : Nat} (h1 : subMask a b) (h2 : subMask b c) : subMask a c :=
+  cpusetDom_ord.trans a b c h1 h2
+theorem subMask_or_left (a b : Nat) : subMask a (a ||| b) := by
+  unfold subMask; rw [← Nat.or_assoc, Nat.or_self]
+theorem subMask_or_right (a b : Nat) : subMask b (a ||| b) := by
+  unfold subMask; rw [Nat.or_comm a b, ← Nat.or_assoc, Nat.or_self]
+
+section NonePolicy
+variable (parent : Nat → Option Nat) (paths : List Nat) (cpus old : Nat) (exp : Bool) (s : St Nat)
+
+/-- pass-1 / pass-2 assignments of the BE dirs -/
+def npB1 (paths : List Nat) (cpus old : Nat) (f : Nat → Nat) : Nat → Nat :=
+  fun n => if n ∈ paths then old ||| cpus else f n
+def npB2 (paths : List Nat) (cpus : Nat) (f : Nat → Nat) : Nat → Nat :=
+  fun n => if n ∈ paths then cpus else f n
+
+theorem np_nodes1 (m : Nat) : nodes (paths.map fun n => ({ node := n, tgt := some m } : Upd Nat)) = paths := by
+  simp [nodes, List.map_map, Function.comp_def]
+theorem np_nodes2 (m : Nat) :
+    nodes (paths.reverse.map fun n => ({ node := n, tgt := some m } : Upd Nat)) = paths.reverse := by
+  simp [nodes, List.map_map, Function.comp_def]
+
+theorem np_JC1 (hc : CacheOK s) (hnd : paths.Nodup) :
+    JC s.files (npB1 paths cpus old s.files)
+      (paths.map fun n => ({ node := n, tgt := some (old ||| cpus) } : Upd Nat)) s := by
+  refine ⟨hc, by rw [np_nodes1]; exact hnd, ?_, ?_⟩
+  · intro u hu
+    simp only [List.mem_map] at hu
+    obtain ⟨n, hn, rfl⟩ := hu
+    simp [npB1, hn]
+  · intro n; rw [np_nodes1]
+    by_cases h : n ∈ paths <;> simp [npB1, h]
+
+theorem np_JC2 (hnd : paths.Nodup) (s1 : St Nat) (hc : CacheOK s1)
+    (hf : ∀ n, s1.files n = npB1 paths cpus old s.files n) :
+    JC (npB1 paths cpus old s.files) (npB2 paths cpus s.files)
+      (paths.reverse.map fun n => ({ node := n, tgt := some cpus } : Upd Nat)) s1 := by
+  refine ⟨hc, by rw [np_nodes2]; exact List.nodup_reverse.mpr hnd, ?_, ?_⟩
+  · intro u hu
+    simp only [List.mem_map, List.mem_reverse] at hu
+    obtain ⟨n, hn, rfl⟩ := hu
+    simp [npB2, hn]
+  · intro n; rw [np_nodes2, hf n]
+    by_cases h : n ∈ paths <;> simp [npB1, npB2, h]
+
+/-- state after pass 1 -/
+theorem np_after1 (hc : CacheOK s) (hnd : paths.Nodup) :
+    CacheOK (runPass (stepCached cpusetDom exp)
+        (paths.map fun n => ({ node := n, tgt := some (old ||| cpus) } : Upd Nat)) s).1 ∧
+    ∀ n, (runPass (stepCached cpusetDom exp)
+        (paths.map fun n => ({ node := n, tgt := some (old ||| cpus) } : Upd Nat)) s).1.files n =
+      npB1 paths cpus old s.files n := by
+  have h := runPass_inv (stepCached cpusetDom exp) (JC s.files (npB1 paths cpus old s.files))
+    (fun u l s' h => (JC_step cpusetDom_eq exp _ _ u l s' h).1) _ _ (np_JC1 paths cpus old s hc hnd)
+  exact ⟨h.1, fun n => by simpa using h.2.2.2 n⟩
+
+/-- **none_policy_final_is_target**: after applyCPUSetWithNonePolicy with a non-empty new set every BE dir
+    (besteffort, pods, containers) holds exactly the new set, and no other file changed. -/
+theorem none_policy_final_is_target (hcpus : cpus ≠ 0) (hc : CacheOK s) (hnd : paths.Nodup) :
+    (∀ n ∈ paths, (nonePolicy exp paths cpus old s).1.files n = cpus) ∧
+    (∀ n, n ∉ paths → (nonePolicy exp paths cpus old s).1.files n = s.files n) := by
+  obtain ⟨c1, f1⟩ := np_after1 paths cpus old exp s hc hnd
+  have h := runPass_inv (stepCached cpusetDom exp) (JC (npB1 paths cpus old s.files) (npB2 paths cpus s.files))
+    (fun u l s' h => (JC_step cpusetDom_eq exp _ _ u l s' h).1) _ _ (np_JC2 paths cpus old s hnd _ c1 f1)
+  have hfin : ∀ n, (nonePolicy exp paths cpus old s).1.files n = npB2 paths cpus s.files n := by
+    intro n; simpa [nonePolicy, hcpus] using h.2.2.2 n
+  exact ⟨fun n hn => by rw [hfin n]; simp [npB2, hn], fun n hn => by rw [hfin n]; simp [npB2, hn]⟩
+
+/-- **none_policy_every_prefix_valid**: `paths` lists a dir before everything below it (filepath.Walk order,
+    `htop`), `parent` is the tree of the BE dirs (`hin`), every BE dir is currently within `oldCPUSet`
+    (`hcov`; the caller passes the besteffort dir's own cpuset) and the BE subtree is valid (`hold`).  Then after
+    every single write of the two-phase rewrite — any old/new sets: grow, shrink, shift — every child's CPU set
+    is contained in its parent's. -/
+theorem none_policy_every_prefix_valid (hc : CacheOK s) (hnd : paths.Nodup)
+    (htop : paths.Pairwise (fun a b => parent a ≠ some b))
+    (hin : ∀ c p, parent c = some p → c ∈ paths ∧ p ∈ paths)
+    (hcov : ∀ n ∈ paths, subMask (s.files n) old)
+    (hold : Valid parent subMask s.files) :
+    ∀ k, Valid parent subMask (applyWrites s.files ((nonePolicy exp paths cpus old s).2.take k)) := by
+  by_cases hcpus : cpus = 0
+  · intro k; simpa [nonePolicy, hcpus, applyWrites] using hold
+  -- edge facts
+  have vB1 : Valid parent subMask (npB1 paths cpus old s.files) := by
+    intro c p h; obtain ⟨h1, h2⟩ := hin c p h; simp [npB1, h1, h2, subMask_refl]
+  have vB2 : Valid parent subMask (npB2 paths cpus s.files) := by
+    intro c p h; obtain ⟨h1, h2⟩ := hin c p h; simp [npB2, h1, h2, subMask_refl]
+  have vAB : ∀ c p, parent c = some p → subMask (s.files c) (npB1 paths cpus old s.files p) := by
+    intro c p h; obtain ⟨h1, h2⟩ := hin c p h
+    simp only [npB1, h2, if_true]
+    exact subMask_trans (hcov c h1) (subMask_or_left old cpus)
+  have vBA : ∀ c p, parent c = some p → subMask (npB2 paths cpus s.files c) (npB1 paths cpus old s.files p) := by
+    intro c p h; obtain ⟨h1, h2⟩ := hin c p h
+    simp only [npB1, npB2, h1, h2, if_true]
+    exact subMask_or_right old cpus
+  -- pass 1
+  have k1 : KTop parent s.files (npB1 paths cpus old s.files)
+      (paths.map fun n => ({ node := n, tgt := some (old ||| cpus) } : Upd Nat)) s := by
+    refine ⟨np_JC1 paths cpus old s hc hnd, ?_, ?_⟩
+    · intro c p h _; rw [np_nodes1]; exact (hin c p h).1
+    · rw [List.pairwise_map]; exact htop
+  have a := runPass_prefix (stepCached cpusetDom exp) (KTop parent s.files (npB1 paths cpus old s.files))
+    (Valid parent subMask) (KTop_valid parent subMask _ _ hold vB1 vAB)
+    (fun u l s' h => KTop_step parent _ _ cpusetDom_eq exp u l s' h) _ _ k1
+  have a1 := runPass_apply (stepCached cpusetDom exp) (JC s.files (npB1 paths cpus old s.files))
+    (fun u l s' h => by
+      obtain ⟨g1, g2⟩ := JC_step cpusetDom_eq exp _ _ u l s' h
+      refine ⟨g1, ?_⟩
+      rcases g2 with g | ⟨w, g⟩
+      · rw [g.1, g.2]; rfl
+      · rw [g.1, g.2]; rfl) _ _ (np_JC1 paths cpus old s hc hnd)
+  -- pass 2
+  obtain ⟨c1, f1⟩ := np_after1 paths cpus old exp s hc hnd
+  have k2 : KBot parent (npB1 paths cpus old s.files) (npB2 paths cpus s.files)
+      (paths.reverse.map fun n => ({ node := n, tgt := some cpus } : Upd Nat))
+      (runPass (stepCached cpusetDom exp)
+        (paths.map fun n => ({ node := n, tgt := some (old ||| cpus) } : Upd Nat)) s).1 := by
+    refine ⟨np_JC2 paths cpus old s hnd _ c1 f1, ?_, ?_⟩
+    · intro c p h _; rw [np_nodes2]; exact List.mem_reverse.mpr (hin c p h).2
+    · rw [List.pairwise_map, List.pairwise_reverse]; exact htop
+  have b := runPass_prefix (stepCached cpusetDom exp)
+    (KBot parent (npB1 paths cpus old s.files) (npB2 paths cpus s.files))
+    (Valid parent subMask) (KBot_valid parent subMask _ _ vB1 vB2 vBA)
+    (fun u l s' h => KBot_step parent _ _ cpusetDom_eq exp u l s' h) _ _ k2
+  intro k
+  simp only [nonePolicy, hcpus, if_false]
+  apply prefix_append (Valid parent subMask) s.files _ _ a
+  intro k'
+  rw [a1]; exact b k'
+
+end NonePolicy
 
 /-! ### non-vacuity: a CPU-set *shift* on a 3-level tree (0 ← 1 ← 2, 0 ← 3) -/
 
